@@ -3,6 +3,7 @@ package main
 import (
 	"fmt"
 	"math/rand"
+	"strings"
 	"sync"
 	"sync/atomic"
 	"time"
@@ -93,6 +94,7 @@ func c07(r *ev.Run) {
 			c07History(r, s, rnd, fault, rep)
 		}
 	}
+	c07RefreshTriggers(r)
 	r.Require("histories_judged", int64(reps*len(c07Faults)*3/4))
 	r.Require("new_connections_after_fault", int64(reps*3))
 }
@@ -421,4 +423,184 @@ func c07History(r *ev.Run, s *sutc.SUT, rnd *rand.Rand, fault string, rep int) {
 	if rep == 0 && (fault == "restart" || fault == "layout-move-slots") {
 		r.Sample(map[string]interface{}{"fault": fault, "masters": nm, "history": e.log})
 	}
+}
+
+// c07RefreshTriggers: with the periodic refresh effectively off (60 s) the table converges only through refreshes triggered by
+// redirections and host changes; a trigger must not be lost whenever it arrives (inside the rate-limit window of the previous
+// refresh, or while a refresh is in flight), and open-slot markers in CLUSTER NODES must not invalidate the reply.
+func c07RefreshTriggers(r *ev.Run) {
+	const minRate = 300 * time.Millisecond
+	s, err := startSUT(r, false, 60000, int64(minRate/time.Millisecond))
+	if err != nil {
+		r.Internal("start sut: %v", err)
+		return
+	}
+	defer s.Close()
+	reps := 2
+	if r.Tier == "thorough" {
+		reps = 12
+	}
+	rnd := rand.New(rand.NewSource(r.Seed + 707))
+	for rep := 0; rep < reps; rep++ {
+		for _, scen := range []string{"trigger-inside-rate-limit-window", "trigger-while-refresh-in-flight", "open-migration-markers-on-every-master"} {
+			if sutDied(r, s, scen) {
+				return
+			}
+			cl, err := fakecluster.New(3, 0)
+			if err != nil {
+				r.Internal("fakecluster: %v", err)
+				return
+			}
+			cl.AssignContiguous()
+			cl.LogArgs = false
+			var lastFetch, redirects int64
+			var slowCluster int32
+			cl.OnEvent = func(e *fakecluster.Event) {
+				if e.Cmd == "cluster" {
+					atomic.StoreInt64(&lastFetch, e.Seq)
+				}
+				if e.Outcome == fakecluster.Moved || e.Outcome == fakecluster.Ask {
+					atomic.AddInt64(&redirects, 1)
+				}
+			}
+			for _, n := range cl.Nodes {
+				n.Delay = func(args [][]byte) time.Duration {
+					if atomic.LoadInt32(&slowCluster) == 1 && len(args) > 0 && strings.EqualFold(string(args[0]), "cluster") {
+						// (only the seed node receives CLUSTER NODES in the in-flight scenario)
+						return 250 * time.Millisecond
+					}
+					return 0
+				}
+			}
+			ms := cl.Masters()
+			perm := rnd.Perm(len(ms))
+			src, dst, third := ms[perm[0]], ms[perm[1]], ms[perm[2]]
+			setMarkers := func() {
+				cl.Lock()
+				for i, m := range ms {
+					// every master is the source of one open migration and the target of another
+					sl := -1
+					for x := 0; x < fakecluster.NumSlots; x++ {
+						if cl.Nodes[0].OwnerLocked(x) == m {
+							sl = x
+							break
+						}
+					}
+					t := ms[(i+1)%len(ms)]
+					m.SetMigratingLocked(sl, t)
+					t.SetImportingLocked(sl, m)
+				}
+				cl.Unlock()
+			}
+			seeds := cl.Addrs()
+			if scen == "trigger-while-refresh-in-flight" {
+				seeds = []string{third.Addr} // every CLUSTER NODES request goes to this node, which is not on the redirected request's path
+			}
+			svc, err := startRedisSvc(s, cl, seeds, RedisOpts{ConnTimeout: 300 * time.Millisecond})
+			if err != nil {
+				cl.Close()
+				r.Internal("%v", err)
+				return
+			}
+			if !svc.WaitRouting(1, 10*time.Second) {
+				cl.Close()
+				r.Inconclusive("routing-not-loaded")
+				continue
+			}
+			conn, err := svc.Dial()
+			if err != nil {
+				cl.Close()
+				r.Internal("dial: %v", err)
+				return
+			}
+			// keys of slots that will move (not the first slot of src: that one may carry an open-migration marker)
+			var moving []string
+			cl.Lock()
+			first := -1
+			for x := 0; x < fakecluster.NumSlots; x++ {
+				if cl.Nodes[0].OwnerLocked(x) == src {
+					first = x
+					break
+				}
+			}
+			cl.Unlock()
+			for i := 0; len(moving) < 6 && i < 100000; i++ {
+				k := fmt.Sprintf("rt%d.%d", rep, i)
+				sl := fakecluster.Slot([]byte(k))
+				cl.Lock()
+				own := cl.Nodes[0].OwnerLocked(sl)
+				cl.Unlock()
+				if own == src && sl != first {
+					moving = append(moving, k)
+				}
+			}
+			move := func() int64 {
+				cl.Lock()
+				defer cl.Unlock()
+				for _, k := range moving {
+					cl.SetOwnerLocked(fakecluster.Slot([]byte(k)), dst)
+				}
+				for _, k := range src.DB().Keys() {
+					if cl.Nodes[0].OwnerLocked(fakecluster.Slot([]byte(k))) == dst {
+						cl.MigrateKeyLocked(src, dst, k)
+					}
+				}
+				return lclock.Tick()
+			}
+			var history []string
+			note := func(f string, a ...interface{}) { history = append(history, fmt.Sprintf(f, a...)) }
+			var changedAt int64
+			switch scen {
+			case "trigger-inside-rate-limit-window":
+				// the start-up refresh has just succeeded: its rate-limit window is open now
+				changedAt = move()
+				conn.DoS(5*time.Second, "SET", moving[0], "v") // redirected once: its trigger arrives inside the window
+				note("layout changed and one request redirected within the %s window of the start-up refresh", minRate)
+			case "trigger-while-refresh-in-flight":
+				time.Sleep(minRate + 150*time.Millisecond)
+				atomic.StoreInt32(&slowCluster, 1)
+				s.HostOp("host_add", svc.Name, hostsOf(seeds)) // triggers a refresh whose CLUSTER NODES reply takes 250 ms
+				time.Sleep(80 * time.Millisecond)
+				changedAt = move() // the reply in flight still describes the old layout
+				conn.DoS(5*time.Second, "SET", moving[0], "v")
+				atomic.StoreInt32(&slowCluster, 0)
+				note("a refresh was in flight (CLUSTER NODES delayed 250 ms) when the layout changed and one request was redirected")
+			default:
+				time.Sleep(minRate + 150*time.Millisecond)
+				setMarkers()
+				changedAt = move()
+				conn.DoS(5*time.Second, "SET", moving[0], "v")
+				note("every master has [slot->-id] and [slot-<-id] markers; layout changed and one request redirected")
+			}
+			// no further request: the first redirection alone must lead to a refresh round within a bounded time
+			deadline := time.Now().Add(minRate + 250*time.Millisecond + 2500*time.Millisecond)
+			for atomic.LoadInt64(&lastFetch) < changedAt && time.Now().Before(deadline) {
+				time.Sleep(20 * time.Millisecond)
+			}
+			w := map[string]interface{}{"scenario": scen, "history": history, "rate_limit": minRate.String(), "periodic_refresh": "60s (off)"}
+			if atomic.LoadInt64(&lastFetch) < changedAt {
+				r.Violation("C07:refresh-trigger-lost:"+scen, "the first redirection after a layout change did not lead to a CLUSTER NODES fetch within the bound (rate limit + 2.75 s), although no periodic refresh would come for 60 s", w)
+			} else {
+				time.Sleep(200 * time.Millisecond) // the reply is applied
+				before := atomic.LoadInt64(&redirects)
+				okAll := true
+				for _, k := range moving {
+					if v, err := conn.DoS(5*time.Second, "SET", k, "v2"); err != nil || v.Kind == resp.Error {
+						okAll = false
+					}
+				}
+				if rd := atomic.LoadInt64(&redirects) - before; rd > 0 || !okAll {
+					w["redirected_after_refresh"] = rd
+					r.Violation("C07:routing-not-converged:"+scen, fmt.Sprintf("%d requests were still redirected after the refresh that followed the layout change", rd), w)
+				} else {
+					r.Count("refresh_trigger_scenarios_converged", 1)
+				}
+			}
+			r.Case("refresh-trigger/" + scen)
+			conn.Close()
+			s.StopProc(svc.Name, 15*time.Second)
+			cl.Close()
+		}
+	}
+	r.Require("refresh_trigger_scenarios_converged", int64(reps*2))
 }
